@@ -44,7 +44,7 @@ def base_paths(maxseg):
                 out.append(("/" + p + trail) if n else "")
                 if n and not p.startswith("/") and ":" not in t[0]:
                     out.append(p + trail)
-    out += ["/d/archive.tar.gz", "/d/.hidden.tar.gz", "x.y.z", "/a.b/c.d.e/", "/...tar", "/..gz"]
+    out += ["/d/archive.tar.gz", "/d/.hidden.tar.gz", "x.y.z", "/a.b/c.d.e/", "/...tar", "/..gz", "/d/a.b.b", "/pkg-1.0.0", "/%D1%84.%D1%84.%D1%84", "t.t.t"]
     return list(dict.fromkeys(out))
 
 
